@@ -252,10 +252,25 @@ def split_is_the_cause(dis):
     correspondence of C01, C02, C04-C07 - their checks replay uninterrupted runs of the same program families - and says nothing
     about stopping; such a disagreement is recorded in the evidence and not counted here.  (The direct oracle `oracle_split`
     compares split and uninterrupted run of the implementation in every case, whatever the model says.)"""
-    out = [True] * len(dis)
+    return [not (agrees is False) for agrees in _base_agrees(dis)]
+
+
+def stop_is_not_the_cause(dis):
+    """The converse, for the kernel properties whose text says nothing about stopping a run (C02, C04-C07; C01 names the run-until stop
+    and keeps every case): a disagreement between implementation and kernel model on a *split* run counts only if they also disagree
+    on the uninterrupted run of the same program.  If they agree there, what differs is how `run(until=...)` / `step()` stop and
+    resume the run - C03's subject, whose check replays the same split programs - and the case is recorded in the evidence, not
+    counted.  Cases of the `untilfail` family (a failed until-event re-raised by `run`: the last clause of C02) always count."""
+    return [(agrees is not True) or getattr(c, 'kind', '') == 'untilfail' for (c, a, b), agrees in zip(dis, _base_agrees(dis))]
+
+
+def _base_agrees(dis):
+    """for every disagreeing case that is a split run: do implementation and model agree on the uninterrupted run of the same program?
+    (None: not a split run, or beyond the first 300 disagreements of the batch - such a case always counts)"""
+    out = [None] * len(dis)
     bases = {}
-    for i, (c, a, b) in enumerate(dis[:300]):         # beyond that: counted as C03's (conservative)
-        if c.mode != 'plan':
+    for i, (c, a, b) in enumerate(dis[:300]):
+        if c.mode != 'plan' or not c.plan:
             continue
         base = Case.from_json({**c.to_json(), 'plan': []})
         base.cid = f'b{i}'
@@ -268,6 +283,5 @@ def split_is_the_cause(dis):
             impl = kscript.Runner(base).run()
         except Exception:
             continue
-        if impl != model.get(base.cid):
-            out[i] = False
+        out[i] = impl == model.get(base.cid)
     return out
